@@ -59,13 +59,17 @@ def inputs_for(pid, tier, rng):
     return allin, len(ex), len(fm), len(g) + len(mb), len(bad)
 
 
-def run(pid, prefix, rep, tier, seed, modelled, theorem_scope):
+def run(pid, prefix, rep, tier, seed, modelled, theorem_scope, extra=None):
     rng = random.Random(seed)
     paths = pc.prepare(need_release=False)
     audit = common.audit_property_file(pid)
     inputs, n_ex, n_fm, n_g, n_bad = inputs_for(pid, tier, rng)
     exts = [0, pc.EXT_ALL] + (pc.SINGLETONS if tier == "thorough" else [])
     dis, ncases, npan = pc.lev_disagreements(paths, inputs, exts)
+    n_extra = 0
+    if extra is not None:
+        dis = dis + extra(inputs)
+        n_extra = len(inputs)
     mon = pc.run_pmon(paths, inputs, [(e, "b" if e else "e") for e in exts], env={"PMON_LIGHT": "1"})
     hits = []
     kinds = {}
@@ -91,7 +95,7 @@ def run(pid, prefix, rep, tier, seed, modelled, theorem_scope):
                 "labels and report rendering" % (n_ex, n_fm, n_g, n_bad, len(exts)),
         "samples": [{"input": s} for s in inputs[:2] + inputs[n_ex + n_fm + 30:n_ex + n_fm + 32] + inputs[-2:]],
         "theorem_scope": theorem_scope,
-        "correspondence_cases": ncases, "correspondence_disagreements": len(dis), "both_sides_panic_cases": npan,
+        "correspondence_cases": ncases + n_extra, "correspondence_disagreements": len(dis), "both_sides_panic_cases": npan,
         "monitor_cases": len(mon), "monitor_violations": len(hits), "monitor_violation_kinds": kinds,
         "exhaustive": False,
     })
